@@ -290,8 +290,11 @@ def h03e(c, K=3):
     is never taken back afterwards"""
     from .c11 import h11a
     from .c06 import _Only
+    world = {}
     with lc.Recorder() as rec:
-        h11a(_Only(c, ("no-exception",)), K=K)
+        # what the exchange had matched for the bet at the very write that reports the order complete
+        rec.probe = lambda o: (world["ex"].bets[o.bet_id]["matched"], world["ex"].remaining(world["ex"].bets[o.bet_id])) if o.bet_id in world["ex"].bets else None
+        h11a(_Only(c, ("no-exception",)), K=K, on_world=lambda ex, fl, market: world.update(ex=ex), epilogue_fill=True)
     seen = []
     for (o, old, new, who) in rec.orders:
         if not any(o is x for x in seen):
@@ -301,6 +304,13 @@ def h03e(c, K=3):
     # the stream delivered the match), so the matched size may still catch up with its own bet - it is never taken back
     for o, m in rec.completed:
         c.ob("reported-complete=>matched-size-never-taken-back", o.size_matched >= m, at_completion=m, now=o.size_matched, bet_id=o.bet_id)
+    for o, at in rec.probed:
+        if at is None:
+            continue
+        b = world["ex"].bets[o.bet_id]
+        # finality at the exchange: nothing is matched for the bet after flumine reported the order complete
+        c.ob("reported-complete=>nothing-matched-afterwards", b["matched"] == at[0], at_completion=at[0], now=b["matched"], bet_id=o.bet_id,
+             cancelled_equals_remainder=(b["cancelled"] > 0 and b["cancelled"] == at[1]))
     c.cover("recorded")
 
 
